@@ -18,6 +18,7 @@ func init() {
 			"the merge-iterator rules of C04 (records of several decoded streams are handed on without loss) and ERR-CHAIN of the metric wrappers (a decode fault travels up through every Err())",
 			"PV-ONCE groupEntries (decoded records are kept on the way out)",
 			"ERR-PROP frame size: no failure exit of the frame decoder depends on the frame's size",
+			"PV-ROLE openLog is given SelectLogs' own context",
 		},
 		NotDecided: []string{"that io.ReadFull/io.CopyN/time.Parse meet their documented contracts", "nanosecond exactness of pcommon.NewTimestampFromTime", "frames larger than memory"},
 		Rules: func(r *Run) {
@@ -29,6 +30,7 @@ func init() {
 			ruleOwnWrapScoped(r, []string{metricPkg, enginePkg}, 2)  // a decode fault travels up through every wrapper's Err()
 			ruleGroupEntries(r)                                      // decoded records are not lost on the way out: every entry of a stream is kept
 			ruleFrameSizeNotJudged(r)
+			ruleOpenLogContext(r) // the streams are read under the query context, not one that ends when the opening is done
 		},
 	})
 }
